@@ -49,7 +49,7 @@ SPEC = {
              "the rank that is only looked up; every hand-written kernel is run off / on / on-again (same prefix)."),
     "shards": {"quick": 16, "thorough": 16},
     "min_counts": {"quick": {"evaluations": 150, "differential_runs": 150, "op_executions_tapped": 1000,
-                             "numiters_checked": 150, "isolation_sessions": 200, "dump_compares": 300, "conv_runs": 60,
+                             "numiters_checked": 150, "isolation_sessions": 200, "dump_compares": 300, "kept_reports_checked": 100, "conv_runs": 60,
                              "nary_runs": 60, "conv_runs_with_prebuilt_projections": 20, "fiberop_runs": 60,
                              "fiberop_elementwise_ops": 400, "lookup_runs": 60, "lookup_kernel_ops": 400}},
     "assumptions": [
@@ -110,6 +110,11 @@ def generate(rng, tier, shard, nshards, mon):
             spec["zinit"] = gen.rand_tree_spec(rng, [spec["ext"][x[0]] for x in zl], 0.5, 0.6, 0)
         traces = []
         mode = rng.random()
+        if len(zl) > 1 and rng.random() < 0.35:
+            # an output that already holds empty sub-fibers / explicit defaults at many places, fully instrumented
+            from fvmon import gen
+            spec["zinit"] = gen.rand_tree_spec(rng, [spec["ext"][x[0]] for x in zl], 0.3, 1.0, 0)
+            mode = 0.0
         for v in lv:
             if mode < 0.4:      # maximal instrumentation
                 traces += [[kernels.rid(v), tt] for tt in TRACE_TYPES]
@@ -267,7 +272,7 @@ def _session(spec, prefix, traces, ncu, tap=None, abandon_after=None):
             tap.active = False
     Metrics.endCollect()
     dump = Metrics.dump()
-    return {"dump": {k: dict(v) for k, v in (dump or {}).items()}, "files": _read_files(prefix), "bodies": dict(obs.per_rank),
+    return {"dump": {k: dict(v) for k, v in (dump or {}).items()}, "dump_object": dump, "files": _read_files(prefix), "bodies": dict(obs.per_rank),
             "zsnap": snap_values(Z), "leaves": obs.leaves, "tally": dict(obs.tally)}
 
 
@@ -897,6 +902,13 @@ def run_case(case, mon):
                 if isinstance(ex, KeyboardInterrupt):
                     raise
                 mon.count(f"earlier-session-raised:{type(ex).__name__}")
+        # the report handed out for the first session still says what that session did, whatever ran afterwards
+        if case["earlier"]:
+            mon.count("kept_reports_checked")
+        kept = s0.get("dump_object")
+        mon.check({k: dict(v) for k, v in (kept or {}).items()} == s0["dump"], "isolation:earlier-report-changed-by-later-session",
+                  f"the object Metrics.dump() returned for the first session now reads {kept}, it read {s0['dump']} "
+                  f"(later sessions {[x['kind'] for x in case['earlier']]})")
         try:
             s1 = _session(spec, prefix, traces, ncu)
             s2 = _session(spec, prefix, traces, ncu)
